@@ -706,6 +706,32 @@ class Facts:
     def is_public_api(self, path):
         return path in self.reachable_items
 
+    def trait_const_in_instance(self, const_def, inst_name):
+        """value of a trait's associated const (`<P as Trait>::NAME` in a generic body) inside one monomorphic instance: the literal
+        of the implementing type's own item, else of the trait's default — resolved only when exactly one implementor of the trait
+        is named among the instance's type arguments. → int | None"""
+        if not const_def or not inst_name or const_def.startswith("<") or "::" not in const_def:
+            return None
+        trait, name = const_def.rsplit("::", 1)
+        impl_tys = [i.get("self_ty") for i in self.impls if i.get("trait") == trait and i.get("self_ty")]
+        import re as _re
+        named = [t for t in impl_tys if _re.search(r"(?<![A-Za-z0-9_:])%s(?![A-Za-z0-9_])" % _re.escape(t), inst_name)]
+        if len(named) != 1:
+            return None
+        for path in ("<%s as %s>::%s" % (named[0], trait, name), const_def):
+            c = self.consts.get(path)
+            if c and "int" in c:
+                return int(c["int"])
+            for rec in self.raw["bodies"]:
+                if rec["path"] == path and rec["kind"] == "AssocConst":
+                    blocks = (rec.get("mir") or {}).get("blocks") or []
+                    if len(blocks) == 1 and blocks[0]["term"]["k"] == "return" and len(blocks[0]["stmts"]) == 1:
+                        rv = blocks[0]["stmts"][0].get("rv") or {}
+                        if rv.get("k") == "use" and rv["op"].get("k") == "const" and "int" in rv["op"]:
+                            return int(rv["op"]["int"])
+                    return None
+        return None
+
     def is_exported(self, path):
         """can code outside the crate name (and therefore call) this item?"""
         if path in self.exported_items:
